@@ -122,11 +122,26 @@ func runC07(c *Ctx) {
 		var mu sync.Mutex
 		var delivered []uint64
 		ob := couchbase.NewObserver(cfg, 3, ^uint64(0), func(a models.ListenerArgs) {
-			if m, ok := a.Event.(models.DcpMutation); ok {
-				mu.Lock()
-				delivered = append(delivered, m.SeqNo)
-				mu.Unlock()
+			// every kind of event waits at the gate: documents and the events the stream absorbs itself (which move the
+			// checkpoint just the same)
+			var sq uint64
+			switch m := a.Event.(type) {
+			case models.DcpMutation:
+				sq = m.SeqNo
+			case models.DcpDeletion:
+				sq = m.SeqNo
+			case models.DcpExpiration:
+				sq = m.SeqNo
+			case models.DcpSeqNoAdvanced:
+				sq = m.SeqNo
+			case models.DcpCollectionCreation:
+				sq = m.SeqNo
+			default:
+				return
 			}
+			mu.Lock()
+			delivered = append(delivered, sq)
+			mu.Unlock()
 		}, func(models.DcpStreamEndContext) {}, map[uint32]string{}, tracing.NewTracerComponent())
 		ob.SnapshotMarker(models.DcpSnapshotMarker{StartSeqNo: 0, EndSeqNo: 1 << 40, VbID: 3}) // control events pass seq 0 <= threshold 0
 		n := 1 + r.Intn(4)
@@ -160,8 +175,22 @@ func runC07(c *Ctx) {
 			case k < 3 && !waiting: // arrive
 				seq += uint64(1 + r.Intn(5))
 				q := seq
+				kind := r.Intn(6)
 				go func() {
-					ob.Mutation(gocbcore.DcpMutation{SeqNo: q, VbID: 3, Key: []byte("k"), Cas: 1})
+					switch kind {
+					case 0:
+						ob.Deletion(gocbcore.DcpDeletion{SeqNo: q, VbID: 3, Key: []byte("k"), Cas: 1})
+					case 1:
+						ob.Expiration(gocbcore.DcpExpiration{SeqNo: q, VbID: 3, Key: []byte("k"), Cas: 1})
+					case 2:
+						ob.SeqNoAdvanced(gocbcore.DcpSeqNoAdvanced{SeqNo: q, VbID: 3})
+						// it narrows the observer's snapshot to [q, q]: the server opens the next snapshot before it goes on
+						ob.SnapshotMarker(models.DcpSnapshotMarker{StartSeqNo: 0, EndSeqNo: 1 << 40, VbID: 3})
+					case 3:
+						ob.CreateCollection(gocbcore.DcpCollectionCreation{SeqNo: q, VbID: 3, CollectionID: 9, Key: []byte("c")})
+					default:
+						ob.Mutation(gocbcore.DcpMutation{SeqNo: q, VbID: 3, Key: []byte("k"), Cas: 1})
+					}
 					done <- struct{}{}
 				}()
 				var o gal.Term
@@ -182,7 +211,7 @@ func runC07(c *Ctx) {
 					o = gal.List(nil)
 				}
 				ops, outs = append(ops, gal.App("GArrive", gal.N(q))), append(outs, o)
-				opsJ = append(opsJ, fmt.Sprintf("arrive %d", q))
+				opsJ = append(opsJ, fmt.Sprintf("arrive %d (%s)", q, []string{"deletion", "expiration", "seqno-advanced", "collection creation", "mutation", "mutation"}[kind]))
 			case k < 8: // report
 				idx := r.Intn(n)
 				u := []uint64{7, 7, 7, 8}[r.Intn(4)]
@@ -303,6 +332,8 @@ func runC07(c *Ctx) {
 		c.Count("mitigation-script")
 	}
 	c.Emit("ticks", "dispatches of the real rollbackMitigation vs Rollback.report over the same answers", im, "list row * list (list (N * N)) * list N", "chk_ticks", tc, tr, 20)
+	wc, wr := runConfigWatch(c)
+	c.Emit("cfgwatch", "adoption of a changed cluster map by the real config watch vs Rollback.config_newer", im, "(Z * Z) * (Z * Z) * bool", "chk_cfgwatch", wc, wr, 50)
 	// ---- (4) the whole client against the simulated node, persisted-seqno reports arriving while Open() is still loading
 	// the checkpoints (the node answers those reads late) and never changing afterwards (an idle bucket): every copy has
 	// reported, so every document must come through
@@ -455,4 +486,111 @@ func runMitigationScript(r *rngT, c *Ctx) (gal.Term, string, error) {
 	}
 	rep := J(map[string]interface{}{"kind": "mitigation", "replicas": replicas, "absent": absent, "answers_per_tick": answers, "dispatched": obs})
 	return gal.Tuple(rowsTerm(rows), gal.List(ticks), gal.NList(obs)), rep, nil
+}
+
+// runConfigWatch: the real rollback mitigation with its config watch running (20 ms) against the simulated node. The
+// cluster map first lists only the active copy of vBucket 1 (both copies of vBucket 2, the reference); then the node
+// installs a map that lists the replica too, under a revision (epoch', rev') that relates to the old one in every way.
+// Adopted = the replica of vBucket 1 is observed afterwards (as many OBSERVE_SEQNO requests for vBucket 1 as for 2).
+func runConfigWatch(c *Ctx) ([]gal.Term, []string) {
+	type shape struct {
+		name   string
+		de, dr int64 // epoch' = epoch + de; rev' = rev + dr
+	}
+	shapes := []shape{{"same epoch, next revision", 0, 1}, {"same epoch, much later revision", 0, 40}, {"next epoch, revision restarted", 1, -2},
+		{"next epoch, same revision", 1, 0}, {"next epoch, later revision", 1, 3}}
+	var cs []gal.Term
+	var rs []string
+	type res struct {
+		old, nw [2]int64
+		adopted bool
+		r1, r2  int
+		err     string
+	}
+	out := make([]res, len(shapes))
+	Parallel(len(shapes), 5, func(i int) {
+		sh := shapes[i]
+		nc := simnode.Config{NumVBuckets: 4, NumReplicas: 1, ReplicasOnNode: 1}
+		cfg := &config.Dcp{}
+		cfg.RollbackMitigation.Interval = 15 * time.Millisecond
+		cfg.RollbackMitigation.ConfigWatchInterval = 20 * time.Millisecond
+		cfg.ConnectionTimeout = 2 * time.Second
+		w, err := newWire(cfg, nc)
+		if err != nil {
+			out[i].err = err.Error()
+			return
+		}
+		defer w.Close()
+		cc := w.Node.BumpConfig(func(cl *simnode.ClusterConfig) {
+			cl.Rev += 5 // room for a lower revision under a later epoch
+			cl.VBucketMap[1][1] = -1
+		})
+		_ = w.Node.WaitAgentRev(w.Agent, cc.Rev, 2*time.Second)
+		_ = w.Node.WaitDCPAgentRev(w.Dcp, cc.Rev, 2*time.Second)
+		out[i].old = [2]int64{cc.RevEpoch, cc.Rev}
+		for _, vb := range []uint16{1, 2} {
+			w.Node.SetFailoverLog(vb, gocbcore.FailoverEntry{VbUUID: 7, SeqNo: 0})
+		}
+		var mu sync.Mutex
+		counts := map[uint16]int{}
+		w.Node.SetObserveFunc(func(v uint16, _ uint64, _ int) simnode.ObserveState {
+			mu.Lock()
+			counts[v]++
+			mu.Unlock()
+			return simnode.ObserveState{VbUUID: 7, PersistSeqNo: 10, CurrentSeqNo: 10}
+		})
+		rm := couchbase.NewRollbackMitigation(w.Client, cfg, []uint16{1, 2}, func(*models.PersistSeqNo) {})
+		rm.Start()
+		defer rm.Stop()
+		time.Sleep(150 * time.Millisecond)
+		mu.Lock()
+		b1, b2 := counts[1], counts[2]
+		mu.Unlock()
+		if b2 == 0 || b1*10 > b2*7 { // before the change vBucket 1 has one listed copy, vBucket 2 two
+			out[i].err = fmt.Sprintf("before the new map: %d requests for vBucket 1, %d for vBucket 2", b1, b2)
+			return
+		}
+		n2 := w.Node.BumpConfig(func(cl *simnode.ClusterConfig) {
+			cl.RevEpoch += sh.de
+			cl.Rev += sh.dr - 1 // BumpConfig adds one
+			cl.VBucketMap[1][1] = 0
+		})
+		out[i].nw = [2]int64{n2.RevEpoch, n2.Rev}
+		// the agents take the new map with their next poll (50 ms), the watch looks every 20 ms
+		deadline := time.Now().Add(3 * time.Second)
+		for time.Now().Before(deadline) {
+			if s, err := w.Dcp.ConfigSnapshot(); err == nil && s.RevID() == n2.Rev {
+				break
+			}
+			time.Sleep(10 * time.Millisecond)
+		}
+		time.Sleep(150 * time.Millisecond)
+		mu.Lock()
+		counts = map[uint16]int{}
+		mu.Unlock()
+		time.Sleep(400 * time.Millisecond)
+		mu.Lock()
+		out[i].r1, out[i].r2 = counts[1], counts[2]
+		mu.Unlock()
+		out[i].adopted = out[i].r2 > 0 && out[i].r1*10 >= out[i].r2*8
+	})
+	for i, sh := range shapes {
+		o := out[i]
+		rep := map[string]interface{}{"kind": "config-watch", "shape": sh.name, "old_epoch_rev": o.old, "new_epoch_rev": o.nw,
+			"observe_requests_after": map[string]int{"vb1": o.r1, "vb2 (reference, two copies)": o.r2}, "adopted": o.adopted}
+		c.Count("config-watch")
+		if o.err != "" {
+			c.Note("config watch (%s) not driven: %s", sh.name, o.err)
+			continue
+		}
+		c.Eval("config-watch "+sh.name, true)
+		if !o.adopted {
+			c.Violate("newer-map-ignored", fmt.Sprintf("the cluster map changed from (epoch %d, rev %d) to (epoch %d, rev %d) and now lists the replica of vBucket 1; "+
+				"400 ms later that copy is still not observed (%d requests for vBucket 1, %d for vBucket 2): its persisted seqno no longer holds events back",
+				o.old[0], o.old[1], o.nw[0], o.nw[1], o.r1, o.r2), rep)
+		}
+		cs = append(cs, gal.Tuple(gal.Tuple(gal.Z(o.old[0]), gal.Z(o.old[1])), gal.Tuple(gal.Z(o.nw[0]), gal.Z(o.nw[1])), gal.Bool(o.adopted)))
+		rs = append(rs, J(rep))
+	}
+	return cs, rs
 }
